@@ -19,11 +19,14 @@ concrete file-level loader model of C05 (Model/DexFile.lean: `step`, `loadEntrie
    rewritten — which follows when no item is read from the bytes of the map entries
    (`parse_perm_invariant_disjoint`) — and that this hypothesis cannot be dropped
    (`parse_perm_needs_items`).
-What is not proved here: that the real `parse` of the item types WITHOUT a parser in
-Model/DexFile.lean (annotations, debug info, encoded arrays, call sites, method handles,
-hidden-api data) reads only what its declared dependencies provide — for those the dependency
-table stays the code's own claim, validated by the correspondence `dexperm` of
-harness/props/c07.py.  `parse_perm_invariant_disjoint` replaces the `sameItems` hypothesis by a
+For the extended loader (Model/DexFileX.lean: encoded arrays, annotation items / sets / set-ref-lists /
+directories, the full ClassDefItem.reload) the frame property and adequacy are `stepX_frame_sharp`,
+`depsX_adequate`, `stepX_frame`, and the ordering theorem instantiates to `maplistX_perm_invariant`.
+What is not proved here: that the real `parse` of the item types WITHOUT a parser in the models
+(debug info, call sites, method handles, hidden-api data) reads only what its declared dependencies
+provide — for those the dependency table stays the code's own claim, validated by the
+correspondence `dexperm` of harness/props/c07.py; the file-level geometric theorems
+(`parse_perm_invariant…`) are stated for the base loader `parseDex`.  `parse_perm_invariant_disjoint` replaces the `sameItems` hypothesis by a
 geometric one on the original file (`items_local`: the decoders are local); an item section that
 starts below the map list and FAILS to decode is outside that criterion (it may have read into
 the map list), there `sameItems` has to be checked directly.
@@ -34,6 +37,7 @@ import AgVerif.Proof.DexDeps
 import AgVerif.Proof.DexPerm
 import AgVerif.Proof.DexGeom
 import AgVerif.Proof.DexFinal
+import AgVerif.Proof.DexXFrame
 namespace AgVerif.C07
 open AgVerif.LoadOrder AgVerif.Gen.MapDeps
 
@@ -316,6 +320,44 @@ theorem parse_perm_needs_items : ∃ (file : Bytes) (mapOff : Nat) (rest : Bytes
   ⟨overlapFile, 0x38, overlapFile.drop 0x38, [⟨0x2002, 1, 0x3C⟩, ⟨0x1000, 1, 0x38⟩],
     [⟨0x1000, 1, 0x38⟩, ⟨0x2002, 1, 0x3C⟩], by decide +kernel, by decide +kernel, by decide,
     by decide +kernel, List.Perm.swap _ _ _, by decide, by decide +kernel, by decide +kernel⟩
+
+/-! ## The extended loader: `AgVerif.DexFile.stepX` (Model/DexFileX.lean)
+
+The item parsers of ENCODED_ARRAY_ITEM, ANNOTATION_ITEM (EncodedValue's eager lookups of strings, types,
+fields and methods), ANNOTATION_SET_ITEM, ANNOTATION_SET_REF_LIST, ANNOTATIONS_DIRECTORY_ITEM (offsets
+are only stored) and the whole ClassDefItem.reload (annotations directory, static values,
+set_static_fields).  `sameTableX` / `agreeOnX` / `FrameOKX` / `readsX` extend the vocabulary above to the
+five new tables (the CLASS_DEF parser also owns the per-class extension and the record of
+set_static_fields calls). -/
+
+/-- frame for the extended item parsers, sharp form: `stepX file · e` depends on the ClassManager only
+    through the tables in `readsX e.type` (for an encoded array or annotation item: string ids, string
+    data, type ids, field ids, method ids; for a class def additionally the annotations directories and
+    the encoded arrays), fails alike or writes the same table, and leaves all other tables alone -/
+theorem stepX_frame_sharp (file : Bytes) (e : MapEntry) (cx₁ cx₂ : CMx)
+    (h : agreeOnX (readsX e.type) cx₁ cx₂) : FrameOKX file e cx₁ cx₂ :=
+  stepX_frame_reads file e cx₁ cx₂ h
+
+/-- what the extended item parsers read is covered, up to transitivity, by the dependency table of
+    the source: ENCODED_ARRAY_ITEM and ANNOTATION_ITEM → STRING_ID, STRING_DATA, TYPE_ID, FIELD_ID,
+    METHOD_ID; CLASS_DEF → … , ENCODED_ARRAY_ITEM, ANNOTATIONS_DIRECTORY_ITEM.  The theorem stops
+    building when the table of the source drops one of them. -/
+theorem depsX_adequate : adequateX deps := readsX_adequate
+
+/-- frame against the table of the source, extended loader -/
+theorem stepX_frame (file : Bytes) (e : MapEntry) (cx₁ cx₂ : CMx)
+    (h : agreeOnX (closure deps e.type) cx₁ cx₂) : FrameOKX file e cx₁ cx₂ :=
+  stepX_frame_of_adequate deps readsX_adequate file e cx₁ cx₂ h
+
+/-- C07 for the extended loader: MapList.__init__ with the extended item parsers ends in the same
+    state (or raises the same error) for every two map lists that are permutations of each other with
+    pairwise distinct types -/
+theorem maplistX_perm_invariant (file : Bytes) (es₁ es₂ : List MapEntry) (hp : es₁.Perm es₂)
+    (hd : (es₁.map (·.type)).Nodup) : loadEntriesX file es₁ = loadEntriesX file es₂ :=
+  maplist_perm_invariant "KeyError" (stepX file) {} es₁ es₂ hp hd
+
+example : readsX 0x2005 = [0x0001, 0x2002, 0x0002, 0x0004, 0x0005] ∧ 0x2005 ∈ readsX 0x0006 ∧ 0x2006 ∈ readsX 0x0006 ∧
+    (∀ D ∈ readsX 0x2005, D ∈ closure deps 0x2005) := by decide +kernel
 
 /-! Non-vacuity for the concrete loader: `exampleFile` with its map list reversed satisfies every
     hypothesis of `parse_perm_invariant`, is a different file, and parses to one string and no class;
